@@ -349,7 +349,7 @@ func lockIdiom(p *Prog, f *ssa.Function, key, lock, unlock string) (bool, string
 	return true, ""
 }
 
-// checkLockHoldersNeverCopied: a struct of the module that holds a sync.Mutex / sync.RWMutex is never copied —
+// checkLockHoldersNeverCopied: a struct of the module that holds a value of a type from package sync (Mutex, RWMutex, Map, …) is never copied —
 // no method with a value receiver, no parameter or result of the struct type, no load of the whole struct.
 // A method that locks "its" mutex on a copy of the struct excludes nobody: every other state is reached through
 // the copied pointers, so sequential behaviour is unchanged and only concurrent callers notice.
@@ -374,10 +374,8 @@ func checkLockHoldersNeverCopied(c *Ctx, rule string) {
 			if st == nil {
 				continue
 			}
-			for i := 0; i < st.NumFields(); i++ {
-				if ts := st.Field(i).Type().String(); ts == "sync.Mutex" || ts == "sync.RWMutex" {
-					holders[n] = true
-				}
+			if holdsSyncByValue(n) != "" {
+				holders[n] = true
 			}
 		}
 	}
